@@ -172,7 +172,7 @@ def write_case(args):
     out = []
     info = {"new_siblings": 0, "bytes_equal": None}
     try:
-        base = os.path.join(d, "o." + ext)
+        base = os.path.join(d, "Out_Mixed.Case." + ext)   # mixed case on purpose: guards must test the real spelling
         targets = _targets(base, ext, nfr)
         # where = which path pre-exists: 'target' (the/one file the call must write) or 'base' (restart multi-frame:
         # the un-numbered name, which the call does not write and must not touch)
@@ -204,7 +204,7 @@ def write_case(args):
             if err is not None:
                 out.append((tag + "|raised-on-overwrite", "force_overwrite=True raised %s: %s" % (type(err).__name__, str(err)[:120]), rep))
             else:
-                cbase = os.path.join(clean, "o." + ext)
+                cbase = os.path.join(clean, "Out_Mixed.Case." + ext)
                 cerr = _do_write(cbase, ext, entry, nfr, fo, seed)
                 if cerr is not None:
                     info["clean_raised"] = repr(cerr)[:100]
